@@ -1,10 +1,138 @@
+import BoboVerif.Model.Validator
 import BoboVerif.Drivers.Util
-/- driver stub for the Validator model (to be replaced by the real line protocol). -/
+/-
+driver for M-Validator (`bobodrv validator`).
+
+A value is represented by its handle and by the *library facts* about it that the
+harness measured directly (json.dumps / jsonschema.validate / isinstance / type ==,
+on the bare value `d…` and on the event object wrapping it `e…`): the model decides
+the verdict from them through `isValid`, and runs the receiver gate.
+
+  val all | val json | val type <sub:0/1> <n> | val schema      -> ok
+  chk <wrap> <facts>                                            -> 1 | 0
+  rnew <maxSize>                                                -> ok
+  add <wrap> <eid|-> <ts|-> <facts>                             -> ok | full
+  upd                                                           -> <ret:0/1> - | <ret> <kind> <id> <ts> <handle>
+  close                                                         -> ok
+  wrap  ::= b (bare) | s | c | a (simple / complex / action event carrying the value)
+  facts ::= <handle> <isNone> <dOk> <dSch> <dInst> <dTy> <eOk> <eSch> <eInst> <eTy>
+            (single bits; the Inst/Ty fields are bit strings of length n, `-` when n = 0)
+-/
 namespace Bobo.Drv.Validator
+open Bobo.Validator
+
+structure Facts where
+  h      : Nat
+  isNone : Bool
+  dOk    : Bool
+  dSch   : Bool
+  dInst  : List Bool
+  dTy    : List Bool
+  eOk    : Bool
+  eSch   : Bool
+  eInst  : List Bool
+  eTy    : List Bool
+
+def lib : Lib Facts Nat Unit where
+  dumpsOk  | .bare d => d.dOk | .event e => e.data.eOk
+  schemaOk | _, .bare d => d.dSch | _, .event e => e.data.eSch
+  isInst   | .bare d, i => d.dInst.getD i false | .event e, i => e.data.eInst.getD i false
+  typeIs   | .bare d, i => d.dTy.getD i false | .event e, i => e.data.eTy.getD i false
+
+def fresh : Fresh := ⟨fun n => "id" ++ toString n, fun n => 1000 + n⟩
 
 structure DS where
-  dummy : Unit := ()
+  v       : V Nat Unit := .all
+  ntypes  : Nat := 0
+  maxSize : Nat := 0
+  r       : RSt Facts := {}
 
-def step (d : DS) (_line : String) : DS × String := (d, "unimplemented")
+def bit? : String → Option Bool
+  | "0" => some false
+  | "1" => some true
+  | _ => none
+
+def bits? (n : Nat) (s : String) : Option (List Bool) :=
+  if s = "-" then (if n = 0 then some [] else none)
+  else
+    let cs := s.toList
+    if cs.length = n && n > 0 && cs.all (fun c => c == '0' || c == '1') then some (cs.map (· == '1')) else none
+
+def facts? (n : Nat) : List String → Option Facts
+  | [h, nn, dOk, dSch, dInst, dTy, eOk, eSch, eInst, eTy] => do
+    let h ← parseNat? h
+    let nn ← bit? nn
+    let dOk ← bit? dOk
+    let dSch ← bit? dSch
+    let dInst ← bits? n dInst
+    let dTy ← bits? n dTy
+    let eOk ← bit? eOk
+    let eSch ← bit? eSch
+    let eInst ← bits? n eInst
+    let eTy ← bits? n eTy
+    pure ⟨h, nn, dOk, dSch, dInst, dTy, eOk, eSch, eInst, eTy⟩
+  | _ => none
+
+def kind? : String → Option Kind
+  | "s" => some .simple
+  | "c" => some .complex
+  | "a" => some .action
+  | _ => none
+
+def kindStr : Kind → String
+  | .simple => "s" | .complex => "c" | .action => "a"
+
+/-- the Python object: bare value or event of the given kind carrying it. -/
+def datum? (wrap eid ts : String) (f : Facts) : Option (Datum Facts) :=
+  if wrap = "b" then (if eid = "-" && ts = "-" then some (.bare f) else none)
+  else do
+    let k ← kind? wrap
+    let t ← parseInt? ts
+    if eid = "-" then none else pure (.event ⟨k, eid, t, f⟩)
+
+def isNoneD : Datum Facts → Bool
+  | .bare d => d.isNone
+  | .event _ => false
+
+def step (d : DS) (line : String) : DS × String :=
+  match words line with
+  | ["val", "all"] => ({ d with v := .all, ntypes := 0 }, "ok")
+  | ["val", "json"] => ({ d with v := .jsonable, ntypes := 0 }, "ok")
+  | ["val", "schema"] => ({ d with v := .schema (), ntypes := 0 }, "ok")
+  | ["val", "type", sub, n] =>
+    match bit? sub, parseNat? n with
+    | some sub, some n => ({ d with v := .type (List.range n) sub, ntypes := n }, "ok")
+    | _, _ => (d, "bad-op")
+  | "chk" :: wrap :: fs =>
+    match facts? d.ntypes fs with
+    | some f =>
+      match datum? wrap (if wrap = "b" then "-" else "e") (if wrap = "b" then "-" else "0") f with
+      | some x => (d, boolStr (isValid lib d.v x))
+      | none => (d, "bad-op")
+    | none => (d, "bad-op")
+  | ["rnew", m] =>
+    match parseNat? m with
+    | some m => ({ d with maxSize := m, r := {} }, "ok")
+    | none => (d, "bad-op")
+  | "add" :: wrap :: eid :: ts :: fs =>
+    match facts? d.ntypes fs with
+    | some f =>
+      match datum? wrap eid ts f with
+      | some x =>
+        let (r', ret) := rstep (isValid lib d.v) fresh d.maxSize isNoneD d.r (.add x)
+        ({ d with r := r' }, match ret with | .queueFull => "full" | _ => "ok")
+      | none => (d, "bad-op")
+    | none => (d, "bad-op")
+  | ["upd"] =>
+    let n0 := d.r.out.length
+    let (r', ret) := rstep (isValid lib d.v) fresh d.maxSize isNoneD d.r .update
+    let rs := match ret with | .bool b => boolStr b | _ => "?"
+    let pub := match r'.out.drop n0 with
+      | [] => "-"
+      | [e] => kindStr e.kind ++ " " ++ e.id ++ " " ++ toString e.ts ++ " " ++ toString e.data.h
+      | _ => "more-than-one"
+    ({ d with r := r' }, rs ++ " " ++ pub)
+  | ["close"] => ({ d with r := (rstep (isValid lib d.v) fresh d.maxSize isNoneD d.r .close).1 }, "ok")
+  | _ => (d, "bad-op")
 
 end Bobo.Drv.Validator
